@@ -1371,7 +1371,7 @@ def extra_checks(ck, tier, rng):
     jobs = []
     for pi, p in enumerate(REAL_PROBES):      # every call followed by every probe (quick: every second pair); every ordered pair before a probe (thorough)
         for ai, a in enumerate(names):
-            if tier == 'thorough' or (pi + ai) % 2 == 0:
+            if tier == 'thorough' or (pi + ai) % 3 == 0:
                 jobs.append(([a], p))
     if tier == 'thorough':
         for p in REAL_PROBES[::2]:
@@ -1594,8 +1594,71 @@ def _obj_histories():
         hs.append([r.choice(ex + fm) if r.random() < 0.7 else r.randrange(len(OBJ_SUBCALLS)) for _ in range(r.choice([2, 3, 4, 6]))])
     return hs
 OBJ_HISTORIES = _obj_histories()
+# ---- file-based operations whose format is guessed from the file name (one suffix, several plugin groups) and
+#      .aux-driven runs over several documents whose citation keys overlap up to letter case
+FILE_SUFFIXES = [('.bib', 'bibtex'), ('.yaml', 'yaml'), ('.bibyaml', 'yaml'), ('.xml', 'bibtexml'), ('.bibtexml', 'bibtexml')]
+FILE_CALLS = [('parse', s_) for s_, _ in FILE_SUFFIXES] + [('write', s_) for s_, _ in FILE_SUFFIXES] + \
+             [('convert', (s1, s2)) for s1, _ in FILE_SUFFIXES for s2, _ in FILE_SUFFIXES if s1 != s2]
+AUX_DOCS = [['knuth84a', 'lamport86'], ['KNUTH84A,Lamport86', 'knuth84b'], ['Knuth84a', 'knuth84c', 'Knuth84a'], ['*'],
+            ['knuth84a', 'Knuth84A'], ['LAMPORT86', 'knuth84d,KNUTH84B']]
+AUX_CALLS = [(k, d) for k in ('parse', 'bibtex', 'python') for d in range(len(AUX_DOCS))]
+
+_CASE_TMP = [None, 0]
+def _mk_tmp(prefix):
+    """a directory for one call: inside the case's own temporary directory when there is one"""
+    if _CASE_TMP[0] is None:
+        return tempfile.mkdtemp(prefix=prefix)
+    _CASE_TMP[1] += 1
+    d = os.path.join(_CASE_TMP[0], '%s%d' % (prefix, _CASE_TMP[1]))
+    os.mkdir(d)
+    return d
+
+def _run_file(op, suf):
+    import pybtex.database as D
+    from pybtex.database.convert import convert
+    fmt = dict(FILE_SUFFIXES)
+    d = _mk_tmp('c18_file_')
+    try:
+        db = D.parse_string(E_DUP, 'bibtex')
+        if op == 'write':
+            n = os.path.join(d, 'out' + suf)
+            db.to_file(n)                                   # bib_format=None: guessed from the name
+            return open(n, 'rb').read()
+        src_suf = suf if op == 'parse' else suf[0]
+        src = os.path.join(d, 'in' + src_suf)
+        with open(src, 'w', encoding='utf-8') as f:
+            f.write(db.to_string(fmt[src_suf]))
+        if op == 'parse':
+            return _db_snapshot(D.parse_file(src))            # bib_format=None
+        dst = os.path.join(d, 'out' + suf[1])
+        convert(src, dst)
+        return open(dst, 'rb').read()
+    finally:
+        shutil.rmtree(d, ignore_errors=True)
+
+def _run_aux(kind, doc):
+    import pybtex, pybtex.bibtex
+    from pybtex import auxfile
+    d = _mk_tmp('c18_aux_')
+    try:
+        with open(os.path.join(d, 'refs.bib'), 'w') as f:
+            f.write(E_DUP)
+        bd = _bst_dir()
+        style = 'unsrt' if kind == 'python' or bd is None else os.path.join(bd, 'plain')
+        aux = os.path.join(d, 'doc%d.aux' % doc)
+        with open(aux, 'w') as f:
+            f.write('\\relax\n' + ''.join('\\citation{%s}\n' % c for c in AUX_DOCS[doc]) + '\\bibstyle{%s}\n\\bibdata{%s}\n' % (style, os.path.join(d, 'refs')))
+        if kind == 'parse':
+            a = auxfile.parse_file(aux)
+            return repr((a.citations, a.style, [os.path.basename(x) for x in a.data]))
+        (pybtex.bibtex if kind == 'bibtex' and bd is not None else pybtex).make_bibliography(aux)
+        return open(os.path.join(d, 'doc%d.bbl' % doc)).read()
+    finally:
+        shutil.rmtree(d, ignore_errors=True)
+
 GEN_SCENARIOS = [('cwd', 0), ('cwd', 1), ('cwd', 2), ('rewrite', 0), ('rewrite', 1), ('encoding', 'latin-1'), ('encoding', 'cp1251'), ('encoding', 'cp437')]
-ENGINE_CALLS = _engine_calls() + [('genbst', sc, v, None, 0) for sc, v in GEN_SCENARIOS] + [('obj', 'O', k, None, 0) for k in range(len(OBJ_HISTORIES))]
+ENGINE_CALLS = _engine_calls() + [('genbst', sc, v, None, 0) for sc, v in GEN_SCENARIOS] + [('obj', 'O', k, None, 0) for k in range(len(OBJ_HISTORIES))] + \
+               [('file', op, suf, None, 0) for op, suf in FILE_CALLS] + [('aux', k, d, None, c) for k, d in AUX_CALLS for c in (0, 1) if c == 0 or d in (1, 4)]
 
 def _obj_apply(db, sub):
     """one call on a database object -> a printable result"""
@@ -1639,7 +1702,7 @@ def _run_obj(hist):
 
 def _run_genbst(scenario, v):
     import pybtex.bibtex
-    d = tempfile.mkdtemp(prefix='c18_bst_')
+    d = _mk_tmp('c18_bst_')
     cwd = os.getcwd()
     try:
         os.chdir(d)
@@ -1675,6 +1738,10 @@ def _engine_run(cid):
     def body():
         if kind == 'genbst':
             return _run_genbst(dn, a)
+        if kind == 'file':
+            return _run_file(dn, a)
+        if kind == 'aux':
+            return _run_aux(dn, a)
         if kind == 'obj':
             return _run_obj(OBJ_HISTORIES[a])
         if kind == 'py':
@@ -1708,17 +1775,29 @@ def _engine_run(cid):
         return r[1][:400]
     return _dg((r, [(type(e).__name__, str(e)[:200]) for e in reports], buf.getvalue(), obuf.getvalue()))
 
+_ENGINE_LOG = []
+_HIST_CACHE = {}
 def impl_engines(arg):
     with _Watchdog(60):
         _reset(None)
         out = []
-        for cid in arg:
-            out.append([cid, _engine_run(cid)])
+        _CASE_TMP[0] = tempfile.mkdtemp(prefix='c18_case_') if any(ENGINE_CALLS[c % len(ENGINE_CALLS)][0] in ('file', 'aux', 'genbst') for c in arg) else None
+        try:
+            for cid in arg:
+                out.append([cid, _engine_run(cid)])
+                if cid not in _ENGINE_LOG[-40:]:
+                    _ENGINE_LOG.append(cid)
+        finally:
+            if _CASE_TMP[0]:
+                shutil.rmtree(_CASE_TMP[0], ignore_errors=True)
+            _CASE_TMP[0] = None
         _reset(None)
         return norm(out)
 
 _FRESH = {}
 def _fresh_one(cid):
+    if isinstance(cid, list):          # a history: every call in order in this one child; the digests
+        return cid, [_engine_run(c) for c in cid]
     return cid, _engine_run(cid)
 def _fresh_engine_main():
     """in a pristine interpreter: every requested engine call in its own forked child"""
@@ -1727,14 +1806,19 @@ def _fresh_engine_main():
     ctx = mp.get_context('fork')
     with ctx.Pool(min(NPROC, 16), maxtasksperchild=1) as pool:
         res = pool.map(_fresh_one, ids, chunksize=1)
-    print(json.dumps(dict((str(k), v) for k, v in res)))
+    print(json.dumps([[k, v] for k, v in res]))
+def _hermetic(histories):
+    """each history (list of call ids) in its own forked child of a pristine interpreter -> list of digest lists"""
+    env = dict(os.environ); env['PYTHONHASHSEED'] = '4242'; env['C18_FRESH_IDS'] = json.dumps(histories)
+    pr = subprocess.run([sys.executable, '-B', '-c', 'import props.c18 as m; m._fresh_engine_main()'], capture_output=True, text=True, env=env, timeout=600)
+    return [v for k, v in json.loads(pr.stdout.strip().splitlines()[-1])]
 def _fresh_table(ids=None):
     want = [i for i in (ids if ids is not None else range(len(ENGINE_CALLS))) if i not in _FRESH]
     if want and -1 not in _FRESH:
         env = dict(os.environ); env['PYTHONHASHSEED'] = '4242'; env['C18_FRESH_IDS'] = json.dumps(want)
         pr = subprocess.run([sys.executable, '-B', '-c', 'import props.c18 as m; m._fresh_engine_main()'], capture_output=True, text=True, env=env, timeout=900)
         try:
-            _FRESH.update((int(k), v) for k, v in json.loads(pr.stdout.strip().splitlines()[-1]).items())
+            _FRESH.update((int(k), v) for k, v in json.loads(pr.stdout.strip().splitlines()[-1]))
         except Exception as e:
             _FRESH[-1] = 'fresh interpreter failed: %r %s' % (e, pr.stderr[-300:])
     return _FRESH
@@ -1743,6 +1827,10 @@ def _engine_name(cid):
     kind, dn, a, b, cap = ENGINE_CALLS[cid % len(ENGINE_CALLS)]
     if kind == 'genbst':
         return 'BibTeX engine with a generated style: scenario %s, %r' % (dn, a)
+    if kind == 'file':
+        return {'parse': 'pybtex.database.parse_file(in%s)', 'write': 'db.to_file(out%s)'}.get(dn, 'convert(in%s, out%s)') % a + ' (format guessed from the name)'
+    if kind == 'aux':
+        return {'parse': 'auxfile.parse_file', 'bibtex': 'pybtex.bibtex.make_bibliography', 'python': 'pybtex.make_bibliography'}[dn] + '(.aux citing %r)' % (AUX_DOCS[a],) + (' inside errors.capture()' if cap else '')
     if kind == 'obj':
         return 'one database object through %r' % ([OBJ_SUBCALLS[i] for i in OBJ_HISTORIES[a]],)
     if kind == 'py':
@@ -1754,6 +1842,31 @@ def _engine_name(cid):
     else:
         s_ = 'parse_string(parse_string(<%s>).to_string(%r), %r)' % (dn, a, a)
     return s_ + (' inside errors.capture()' if cap else '')
+
+def _failing_history(arg, i, fresh):
+    """the concrete history behind a deviation: the shortest of (this case up to the call; one earlier call of this
+    process + the call) that reproduces the deviation when run from a pristine interpreter"""
+    a = arg[i] % len(ENGINE_CALLS)
+    key = (a, tuple(arg[:i]))
+    if key not in _HIST_CACHE:
+        earlier = []
+        for x in list(arg[:i]) + _ENGINE_LOG[::-1]:
+            if x != a and x not in earlier:
+                earlier.append(x)
+        cands = [[x, a] for x in earlier[:30]] + ([list(arg[:i + 1])] if i else [])
+        found = None
+        try:
+            for h, r in zip(cands, _hermetic(cands)):
+                if r and r[-1] != fresh[a]:
+                    found = h
+                    break
+        except Exception as e:
+            found = None
+        _HIST_CACHE[key] = found
+    h = _HIST_CACHE[key]
+    if h is None:
+        return '; no two-call history from a fresh interpreter reproduces it (earlier calls of this process: %r)' % ([_engine_name(x) for x in _ENGINE_LOG[-6:]],)
+    return '; FAILING HISTORY, reproduced from a fresh interpreter: ' + ' ; THEN '.join(_engine_name(x) for x in h)
 
 def oracle_engines(arg, out):
     fails = []
@@ -1769,7 +1882,7 @@ def oracle_engines(arg, out):
             fails.append(('engine-repeat', 'call %d repeats call %d (%s) but its output or reports differ' % (i, first[cid][0], _engine_name(cid))))
         first.setdefault(cid, (i, d))
         if cid % len(ENGINE_CALLS) in fresh and fresh[cid % len(ENGINE_CALLS)] != d:
-            fails.append(('engine-fresh', 'call %d (%s) gives another output or other reports than in a fresh interpreter' % (i, _engine_name(cid))))
+            fails.append(('engine-fresh', 'call %d (%s) gives another output or other reports than in a fresh interpreter%s' % (i, _engine_name(cid), _failing_history(arg, i, fresh))))
     return fails
 
 FUNCS[3] = ('real engines: Python engine x styles x options x back ends, BibTeX engine x shipped .bst, writers, readers', impl_engines, ('L', 'N'))
@@ -1816,29 +1929,43 @@ def gen(tier, rng):
         """the quick tier's selection: every (database, style) of the Python engine with a rotating option set, also
         inside capture(); half of the light .bst runs, a third of the rest"""
         kind, dn, a, b, cap = ENGINE_CALLS[i]
-        if kind == 'genbst':
+        if kind in ('genbst', 'file', 'aux'):
             return True
         if kind == 'obj':
             return a < 4 or a % 2 == 0
         if kind == 'py':
-            return cap == 1 or b == (dbi[dn] + PY_STYLES.index(a)) % len(PY_VARIANTS)
+            return (cap == 1 and dn in ('dup', 'missing')) or (cap == 0 and b == (dbi[dn] + PY_STYLES.index(a)) % len(PY_VARIANTS))
         if kind == 'bst':
             return (i % 3 == 0) if i in heavy else (i % 2 == 0)
         return i % 4 == 0 if kind == 'write' else i % 2 == 0
     sel = [i for i in range(n) if tier == 'thorough' or in_quick(i)]
     _fresh_table(sel)          # in the parent, before the workers are forked
     for i in sel:                                        # the same database twice
-        yield ('engines_twice', 3, [i, i])
+        if tier == 'thorough' or ENGINE_CALLS[i][0] not in ('file', 'aux', 'write', 'read'):
+            yield ('engines_twice', 3, [i, i])
     # the same style / .bst / writer on ANOTHER database first (state keyed on the style, the entry type, ...), then this one
     gb = [i for i in sel if ENGINE_CALLS[i][0] == 'genbst']
     for a in gb:                                         # the same style NAME, another directory / text / encoding first
         for b in gb:
             if a != b and ENGINE_CALLS[a][1] == ENGINE_CALLS[b][1]:
                 yield ('engines_after_other', 3, [b, a])
+    fl = [i for i in sel if ENGINE_CALLS[i][0] == 'file']
+    def sufs(i):
+        x = ENGINE_CALLS[i][2]
+        return set(x) if isinstance(x, tuple) else {x}
+    for b in fl:                                         # one suffix, looked up in several plugin groups, in both orders
+        for a in fl:
+            if a != b and sufs(a) & sufs(b) and (ENGINE_CALLS[b][1] != 'convert' or tier == 'thorough') and (tier == 'thorough' or (ENGINE_CALLS[a][1] != 'convert' and ENGINE_CALLS[a][1] != ENGINE_CALLS[b][1]) or (ENGINE_CALLS[a][1] == 'convert' and (a + b) % 4 == 0)):
+                yield ('engines_after_other', 3, [b, a])
+    ax = [i for i in sel if ENGINE_CALLS[i][0] == 'aux']
+    for b in ax:                                         # several documents in one process; keys overlapping up to letter case
+        for a in ax:
+            if ENGINE_CALLS[a][2] != ENGINE_CALLS[b][2] and (tier == 'thorough' or ENGINE_CALLS[a][1] == ENGINE_CALLS[b][1] or ENGINE_CALLS[b][1] == 'parse') and (tier == 'thorough' or (ENGINE_CALLS[a][4] == 0 and ENGINE_CALLS[b][4] == 0 and ((ENGINE_CALLS[a][1] == 'parse' and ENGINE_CALLS[b][1] == 'parse' and (a + b) % 2 == 1) or (ENGINE_CALLS[a][1] != 'parse' or ENGINE_CALLS[b][1] != 'parse') and (a + b) % 3 == 0))):
+                yield ('engines_after_other', 3, [b, a])
     groups = {}
     for i in sel:
         c = ENGINE_CALLS[i]
-        if c[0] in ('genbst', 'obj'):
+        if c[0] in ('genbst', 'obj', 'file', 'aux'):
             continue
         groups.setdefault((c[0], c[2]) if tier == 'quick' else (c[0], c[2], c[3], c[4]), []).append(i)
     for key, ids in sorted(groups.items(), key=repr):
